@@ -347,14 +347,14 @@ pub struct Ctx {
     /// the input contains something the subject's CBOR parser may fold or refuse wholesale
     /// (bignum tags, unassigned simple values): nothing about accept/reject is specified then
     pub parser_unspec: bool,
-    /// nesting of bstr-wrapped header maps seen so far
-    pub bstr_depth: usize,
+    /// nesting of header maps (through counter-signatures) seen so far
+    pub hdr_depth: usize,
 }
 
-/// Beyond this many levels of bstr-wrapped header maps (counter-signatures inside protected
-/// headers) the accept/reject verdict is left unspecified: an implementation may impose a nesting
-/// limit (C01 demands bounded stack), and the properties do not say where.
-pub const MAX_SPECIFIED_BSTR_NESTING: usize = 4;
+/// Beyond this many levels of header nesting (headers inside counter-signatures inside headers)
+/// the accept/reject verdict is left unspecified: an implementation may impose a nesting limit
+/// (C01 demands a bounded stack), and the properties do not say where.
+pub const MAX_SPECIFIED_HEADER_NESTING: usize = 4;
 
 impl Ctx {
     fn fault(&mut self, rule: &'static str, kind: FaultKind) {
@@ -578,7 +578,13 @@ pub fn header_map(c: &mut Ctx, i: &Item) -> RHeader {
             RLabel::Int(5) => h.iv = nonempty_bstr(c, v, "H7 iv"),
             RLabel::Int(6) => h.partial_iv = nonempty_bstr(c, v, "H7 partial iv"),
             RLabel::Int(7) => match v {
-                Item::Array(a) if !a.is_empty() => match &a[0] {
+                Item::Array(a) if !a.is_empty() => {
+                  c.hdr_depth += 1;
+                  if c.hdr_depth > MAX_SPECIFIED_HEADER_NESTING {
+                      c.unspec("header nesting beyond the specified depth");
+                      c.parser_unspec = true;
+                  }
+                  match &a[0] {
                     Item::Bytes(_) => {
                         let s = signature(c, v);
                         h.counter_signatures.push(s);
@@ -590,7 +596,9 @@ pub fn header_map(c: &mut Ctx, i: &Item) -> RHeader {
                         }
                     }
                     _ => c.other("H9 counter signature first element"),
-                },
+                  }
+                  c.hdr_depth -= 1;
+                }
                 _ => c.other("H9 counter signature not a non-empty array"),
             },
             l => h.rest.push((l, opaque(c, v))),
@@ -608,10 +616,6 @@ pub fn protected_content(c: &mut Ctx, content: &[u8]) -> RProtected {
     if content.is_empty() {
         return p;
     }
-    c.bstr_depth += 1;
-    if c.bstr_depth > MAX_SPECIFIED_BSTR_NESTING {
-        c.unspec("bstr-wrapped header nesting beyond the specified depth");
-    }
     match read_all(content) {
         ReadAll::One(e) => {
             let it = e.item();
@@ -623,7 +627,7 @@ pub fn protected_content(c: &mut Ctx, content: &[u8]) -> RProtected {
             check_parser_unspec(c, &it);
             c.fault("P2 trailing bytes after header map", FaultKind::Extraneous);
             // an invalid map followed by bytes has two faults
-            let mut sub = Ctx { bstr_depth: c.bstr_depth, ..Default::default() };
+            let mut sub = Ctx { hdr_depth: c.hdr_depth, ..Default::default() };
             header_map(&mut sub, &it);
             c.faults.extend(sub.faults);
             c.parser_unspec |= sub.parser_unspec;
@@ -641,7 +645,6 @@ pub fn protected_content(c: &mut Ctx, content: &[u8]) -> RProtected {
         }
         ReadAll::Err(_) => c.other("P2 protected content is not one well-formed item"),
     }
-    c.bstr_depth -= 1;
     p
 }
 
